@@ -1,12 +1,15 @@
 (** C08 — Keys identify projected tuples; projections plus residue lose nothing.
     Statements only; proofs are in Proofs/Key.v, Proofs/Projection.v,
-    Proofs/Exclusion.v. The model (Model/Projection.v, Model/Key.v) is driven by
+    Proofs/Exclusion.v, Proofs/KeyGet.v, Proofs/Lossless.v, Proofs/LosslessNames.v,
+    Proofs/LosslessExec.v.
+    The model (Model/Projection.v, Model/Key.v) is driven by
     arbitrary streams [ops] of API calls on one ProjectionParser: Parse /
     ParseWithUnit (already-parsed fields, failing calls included), Residue,
     Project, ProjectValues, in any interleaving. A Key is the position of its
     keyNode in the projection's list of interned rows (Go: pointer identity). *)
 From Perf Require Import Base.Bytes Model.Name Model.Extract Model.Key Model.Projection
-  Proofs.Key Proofs.Projection Proofs.Exclusion Proofs.KeyGet.
+  Proofs.Key Proofs.Projection Proofs.Exclusion Proofs.KeyGet Proofs.Lossless Proofs.LosslessNames
+  Proofs.LosslessExec.
 
 (** intern_inv (1): after any stream of calls, in every projection the interned
     rows are pairwise distinct, carry no trailing empty string, and are no longer
@@ -174,4 +177,310 @@ Proof.
   split; [eexists; split; [vm_compute; reflexivity|split; vm_compute; reflexivity]|].
   split; [eexists; split; [vm_compute; reflexivity|vm_compute; reflexivity]|].
   apply exclusion_order_independent. intros c. cbn. tauto.
+Qed.
+
+(** ** projections plus residue lose nothing (DESIGN 7.8, precise form)
+
+    Setting. [calls] are the Parse / ParseWithUnit calls made on one parser, every
+    one returning a projection ([call_ok]: after a Parse that returned an error
+    the parser has recorded keys nobody projects — C08_failed_parse_loses); then
+    Residue; then ANY stream [rest] of Project / ProjectValues / further Residue
+    calls on results whose configuration keys are distinct ([op_wf], as benchfmt
+    maintains). The projections are numbered 0 .. length calls - 1 in call order,
+    the residue is number [length calls]. Results [a] and [b] are projected by
+    every one of them at arbitrary positions [ia pi], [ib pi] of the stream — any
+    number of other results, with new configuration keys, may come before,
+    between and after — and [ka pi], [kb pi] are the Keys returned (positions of
+    the interned keyNodes: [=] is Go's [==] on Keys of one projection).
+
+    Statement. The Keys agree in every projection and in the residue IF AND ONLY
+    IF ([same_info], with C = the parser's configKeys and E = its fullnameKeys,
+    the exclude list of the full-name extractor, C08_ext_after_parsing):
+      (i)   every individually projected configuration key k in C looks up the
+            same value — [extract_config]: the value of the entry with that key,
+            FILE OR INTERNAL, "" when there is none (C05 config_lookup_spec);
+      (ii)  the FILE configurations restricted to the keys not in C are equal as
+            maps — [cfg_file_val]: the value of the file entry, "" when the key
+            has no file entry (the way Key.Get reads a missing value);
+      (iii) every individually projected name key k in E (.name, /k,
+            /gomaxprocs) extracts the same value ([extract], C05 namepart_spec,
+            gomaxprocs_spec);
+      (iv)  the names with those parts deleted are equal
+            ([extractor_fullname E]; C08_fullname_clause_spec says what that is).
+    No hypothesis on the names is needed for this equivalence; where the
+    property's "(for names whose sub-name keys are distinct)" comes in is stated
+    in C08_deleted_parts_are_read below. *)
+Theorem C08_projections_plus_residue_lossless :
+  forall calls rest a b (ia ib ka kb : nat -> nat),
+  Forall call_ok calls -> Forall no_parse rest -> Forall op_wf rest ->
+  let pa := parser_after calls in
+  let w0 := fst (run_ops new_world (parse_ops calls ++ [OpResidue])) in
+  let xs := snd (run_ops w0 rest) in
+  (forall pi, pi <= length calls ->
+     nth_error rest (ia pi) = Some (OpProject pi a) /\ nth_error xs (ia pi) = Some (OutKeys [ka pi]) /\
+     nth_error rest (ib pi) = Some (OpProject pi b) /\ nth_error xs (ib pi) = Some (OutKeys [kb pi])) ->
+  ((forall pi, pi <= length calls -> ka pi = kb pi) <-> same_info (pp_cfg pa) (pp_full pa) a b).
+Proof. exact projections_plus_residue_lossless. Qed.
+Print Assumptions C08_projections_plus_residue_lossless.
+
+(** the four clauses, spelled out (this is the definition of [same_info]) *)
+Theorem C08_same_info_clauses : forall C E a b,
+  same_info C E a b <->
+  (forall k, In k C -> extract_config (r_cfg a) k = extract_config (r_cfg b) k) /\
+  (forall k, ~ In k C -> cfg_file_val (r_cfg a) k = cfg_file_val (r_cfg b) k) /\
+  (forall k, In k E -> extract k (r_name a) (r_cfg a) = extract k (r_name b) (r_cfg b)) /\
+  extractor_fullname E (r_name a) = extractor_fullname E (r_name b).
+Proof. intros C E a b. reflexivity. Qed.
+Print Assumptions C08_same_info_clauses.
+
+(** the "group contents" lemma behind it: the Key handed out for [r] anywhere in
+    the stream, read in the FINAL state (field set grown by all later results):
+    every field holds what its extractor yields on [r]; every file key of [r]
+    that is not individually projected has a sub-field in every .config group,
+    holding that key's value; no sub-field is named by an individually projected
+    key *)
+Theorem C08_group_contents : forall calls rest i pi r k,
+  Forall call_ok calls -> Forall no_parse rest -> Forall op_wf rest ->
+  let pa := parser_after calls in
+  let w0 := fst (run_ops new_world (parse_ops calls ++ [OpResidue])) in
+  nth_error rest i = Some (OpProject pi r) ->
+  nth_error (snd (run_ops w0 rest)) i = Some (OutKeys [k]) ->
+  exists pF, nth_error (w_projs (fst (run_ops w0 rest))) pi = Some pF /\ k < length (p_keys pF) /\
+    (forall idx f, nth_error (p_fields pF) idx = Some f -> key_get pF k idx = want (pp_full pa) r f) /\
+    (forall g o c, In (PConfig g o) (p_items pF) ->
+       In c (r_cfg r) -> c_file c = true -> ~ In (c_key c) (pp_cfg pa) ->
+       exists j, In j (group_subs pF g) /\ field_name pF j = c_key c /\ key_get pF k j = c_val c) /\
+    (forall g j, In j (group_subs pF g) -> ~ In (field_name pF j) (pp_cfg pa)).
+Proof. exact group_contents. Qed.
+Print Assumptions C08_group_contents.
+
+(** How the precise form maps onto the prose ("the same file configuration, the
+    same value for every individually projected name key, the same remaining
+    name"). Clauses (iii) and (iv) ARE the last two. For the configuration: when
+    no individually projected key is internal in one result and file-or-absent in
+    the other, (i) and (ii) together say: the file configurations are equal as
+    maps, and the individually projected keys that are internal in both have
+    equal values. *)
+Theorem C08_lossless_same_kind :
+  forall calls rest a b (ia ib ka kb : nat -> nat),
+  Forall call_ok calls -> Forall no_parse rest -> Forall op_wf rest ->
+  let pa := parser_after calls in
+  let w0 := fst (run_ops new_world (parse_ops calls ++ [OpResidue])) in
+  let xs := snd (run_ops w0 rest) in
+  (forall pi, pi <= length calls ->
+     nth_error rest (ia pi) = Some (OpProject pi a) /\ nth_error xs (ia pi) = Some (OutKeys [ka pi]) /\
+     nth_error rest (ib pi) = Some (OpProject pi b) /\ nth_error xs (ib pi) = Some (OutKeys [kb pi])) ->
+  (forall k, In k (pp_cfg pa) -> internal_in (r_cfg a) k = internal_in (r_cfg b) k) ->
+  ((forall pi, pi <= length calls -> ka pi = kb pi) <->
+   file_cfg_equal a b /\
+   (forall k, In k (pp_cfg pa) -> internal_in (r_cfg a) k = true ->
+      extract_config (r_cfg a) k = extract_config (r_cfg b) k) /\
+   (forall k, In k (pp_full pa) -> extract k (r_name a) (r_cfg a) = extract k (r_name b) (r_cfg b)) /\
+   extractor_fullname (pp_full pa) (r_name a) = extractor_fullname (pp_full pa) (r_name b)).
+Proof. exact lossless_same_kind. Qed.
+Print Assumptions C08_lossless_same_kind.
+
+(** ... and when no individually projected key is internal in either result, the
+    prose verbatim *)
+Theorem C08_lossless_file_only :
+  forall calls rest a b (ia ib ka kb : nat -> nat),
+  Forall call_ok calls -> Forall no_parse rest -> Forall op_wf rest ->
+  let pa := parser_after calls in
+  let w0 := fst (run_ops new_world (parse_ops calls ++ [OpResidue])) in
+  let xs := snd (run_ops w0 rest) in
+  (forall pi, pi <= length calls ->
+     nth_error rest (ia pi) = Some (OpProject pi a) /\ nth_error xs (ia pi) = Some (OutKeys [ka pi]) /\
+     nth_error rest (ib pi) = Some (OpProject pi b) /\ nth_error xs (ib pi) = Some (OutKeys [kb pi])) ->
+  (forall k, In k (pp_cfg pa) -> internal_in (r_cfg a) k = false /\ internal_in (r_cfg b) k = false) ->
+  ((forall pi, pi <= length calls -> ka pi = kb pi) <->
+   file_cfg_equal a b /\
+   (forall k, In k (pp_full pa) -> extract k (r_name a) (r_cfg a) = extract k (r_name b) (r_cfg b)) /\
+   extractor_fullname (pp_full pa) (r_name a) = extractor_fullname (pp_full pa) (r_name b)).
+Proof. exact lossless_file_only. Qed.
+Print Assumptions C08_lossless_file_only.
+
+(** clause (iv), declaratively: ".name" in E replaces the base name by "*"; every
+    part owned by a key of E ("/k=..." for /k in E; the trailing "-N" and
+    "/gomaxprocs=..." for /gomaxprocs in E) is deleted; nothing else changes *)
+Theorem C08_fullname_clause_spec : forall E n,
+  extractor_fullname E n =
+  (if existsb (beq key_name) E then [c_star] else fst (parts n))
+    ++ concat (filter (fun p => negb (existsb (fun k => owns k p) E)) (snd (parts n))).
+Proof. exact extractor_fullname_spec. Qed.
+Print Assumptions C08_fullname_clause_spec.
+
+(** "(for names whose sub-name keys are distinct)": when no key of E owns two
+    parts of the name, every part that (iv) deletes is the very part whose value
+    (iii) compares — "/k=" followed by the value of /k, or "-" followed by the
+    value of /gomaxprocs — so no part of the name goes uncompared. Without the
+    hypothesis a second "/k=..." part is deleted but read by nobody
+    (C08_duplicate_subkey_unseen). *)
+Theorem C08_deleted_parts_are_read : forall E n c p,
+  DistinctSubKeys E n -> In p (snd (parts n)) ->
+  existsb (fun k => owns k p) E = true ->
+  exists k, In k E /\ owns k p = true /\
+    p = (if starts_dash p then [c_dash] else k ++ [c_eq]) ++ extract k n c.
+Proof. exact deleted_parts_are_read. Qed.
+Print Assumptions C08_deleted_parts_are_read.
+
+(** The executable check that the correspondence evaluator applies to the Keys
+    the REAL code returned (Corr/RunC08.v: [lossless_ok] compares Key agreement of
+    every pair of results of a stream with [RunC08.same_info]) decides exactly
+    the right-hand side of the theorem: the exclusion lists it computes from the
+    expressions are the parser's ([calls_of ex]: one Parse/ParseWithUnit call per
+    expression), and its boolean tests are the four clauses. The extra conjunct
+    concerns expressions parsed by ParseWithUnit and projected by ProjectValues:
+    the checker then also compares the units (that part is tested, not proved). *)
+Theorem C08_lossless_check_decides : forall ex a b,
+  Forall call_ok (calls_of ex) ->
+  let pa := parser_after (calls_of ex) in
+  (Perf.Corr.RunC08.same_info ex a b = true <->
+   same_info (pp_cfg pa) (pp_full pa) a b /\
+   (existsb Perf.Corr.RunC08.e_unit ex = true -> r_units a = r_units b)).
+Proof. exact same_info_exec. Qed.
+Print Assumptions C08_lossless_check_decides.
+
+(** *** non-vacuity and the witnesses for the remarks above *)
+Ltac solve_wf :=
+  repeat constructor; cbn; intuition discriminate.
+
+Definition lx_calls : list call := [(false, [ex_goos; ex_a]); (true, [ex_cfg])].
+Definition lx_a : result :=
+  mkR (bs "Fib/a=1/b=2-8") [mkCfg (bs "goos") (bs "linux") true; mkCfg (bs "pkg") (bs "p") true] [bs "sec/op"].
+Definition lx_b : result :=
+  mkR (bs "Fib/b=2/a=1-8") [mkCfg (bs "pkg") (bs "p") true; mkCfg (bs "goos") (bs "linux") true]
+      [bs "sec/op"; bs "B/op"].
+Definition lx_c : result :=
+  mkR (bs "Fib/a=1/b=3-8") [mkCfg (bs "goos") (bs "linux") true; mkCfg (bs "cpu") (bs "x") true] [bs "sec/op"].
+Definition lx_rest : list op :=
+  [OpProject 0 lx_a; OpProject 1 lx_a; OpProject 2 lx_a; OpProjectValues 1 lx_c; OpProject 2 lx_c; OpResidue;
+   OpProject 0 lx_b; OpProject 1 lx_b; OpProject 2 lx_b; OpProject 0 lx_c; OpProject 1 lx_c].
+Definition lx_w0 : world := fst (run_ops new_world (parse_ops lx_calls ++ [OpResidue])).
+
+(** "goos,/a", ".config" with .unit, residue (= .fullname minus /a). lx_a and lx_b
+    (different part order in the name, different order of the configuration,
+    different units) get equal Keys everywhere although a third result with a new
+    key comes in between; lx_c differs from lx_a in the .config projection and in
+    the residue. Both instances satisfy every hypothesis of the theorem, which
+    therefore decides [same_info] for them. *)
+Example C08_lossless_example :
+  let C := pp_cfg (parser_after lx_calls) in
+  let E := pp_full (parser_after lx_calls) in
+  let xs := snd (run_ops lx_w0 lx_rest) in
+  Forall call_ok lx_calls /\ Forall no_parse lx_rest /\ Forall op_wf lx_rest /\
+  C = [bs "goos"] /\ E = [bs "/a"] /\
+  (forall pi, pi <= length lx_calls ->
+     nth_error lx_rest pi = Some (OpProject pi lx_a) /\ nth_error xs pi = Some (OutKeys [0]) /\
+     nth_error lx_rest (6 + pi) = Some (OpProject pi lx_b) /\ nth_error xs (6 + pi) = Some (OutKeys [0])) /\
+  same_info C E lx_a lx_b /\ r_name lx_a <> r_name lx_b /\
+  (forall pi, pi <= length lx_calls ->
+     nth_error lx_rest pi = Some (OpProject pi lx_a) /\ nth_error xs pi = Some (OutKeys [0]) /\
+     nth_error lx_rest (nth pi [9; 10; 4] 0) = Some (OpProject pi lx_c) /\
+     nth_error xs (nth pi [9; 10; 4] 0) = Some (OutKeys [nth pi [0; 2; 1] 0])) /\
+  ~ same_info C E lx_a lx_c.
+Proof.
+  cbv zeta.
+  assert (H1 : Forall call_ok lx_calls) by (repeat constructor).
+  assert (H2 : Forall no_parse lx_rest) by (repeat constructor).
+  assert (H3 : Forall op_wf lx_rest) by solve_wf.
+  assert (H4 : forall pi, pi <= length lx_calls ->
+     nth_error lx_rest pi = Some (OpProject pi lx_a) /\
+     nth_error (snd (run_ops lx_w0 lx_rest)) pi = Some (OutKeys [0]) /\
+     nth_error lx_rest (6 + pi) = Some (OpProject pi lx_b) /\
+     nth_error (snd (run_ops lx_w0 lx_rest)) (6 + pi) = Some (OutKeys [0])).
+  { intros [|[|[|pi]]] Hpi; [| | |cbn in Hpi; lia]; repeat split; vm_compute; reflexivity. }
+  assert (H5 : forall pi, pi <= length lx_calls ->
+     nth_error lx_rest pi = Some (OpProject pi lx_a) /\
+     nth_error (snd (run_ops lx_w0 lx_rest)) pi = Some (OutKeys [0]) /\
+     nth_error lx_rest (nth pi [9; 10; 4] 0) = Some (OpProject pi lx_c) /\
+     nth_error (snd (run_ops lx_w0 lx_rest)) (nth pi [9; 10; 4] 0) = Some (OutKeys [nth pi [0; 2; 1] 0])).
+  { intros [|[|[|pi]]] Hpi; [| | |cbn in Hpi; lia]; repeat split; vm_compute; reflexivity. }
+  split; [exact H1|]. split; [exact H2|]. split; [exact H3|].
+  split; [vm_compute; reflexivity|]. split; [vm_compute; reflexivity|].
+  split; [exact H4|]. split.
+  - apply (projections_plus_residue_lossless lx_calls lx_rest lx_a lx_b (fun pi => pi) (fun pi => 6 + pi)
+             (fun _ => 0) (fun _ => 0) H1 H2 H3 H4). reflexivity.
+  - split; [discriminate|]. split; [exact H5|]. intros Hs.
+    pose proof (proj2 (projections_plus_residue_lossless lx_calls lx_rest lx_a lx_c (fun pi => pi)
+             (fun pi => nth pi [9; 10; 4] 0) (fun _ => 0) (fun pi => nth pi [0; 2; 1] 0) H1 H2 H3 H5) Hs) as Hk.
+    specialize (Hk 1 (le_S _ _ (le_n 1))). discriminate Hk.
+Qed.
+
+(** an individually projected key that is a FILE key in one result and INTERNAL in
+    the other: "goos" and the residue give equal Keys (clause (i) compares the
+    looked-up values, clause (ii) does not see goos), yet the file configurations
+    differ — the hypothesis of C08_lossless_same_kind is needed for the prose *)
+Definition kw_a : result := mkR (bs "F") [mkCfg (bs "goos") (bs "linux") true] [].
+Definition kw_b : result := mkR (bs "F") [mkCfg (bs "goos") (bs "linux") false] [].
+Example C08_kind_mismatch_witness :
+  let calls := [(false, [ex_goos])] in
+  let w0 := fst (run_ops new_world (parse_ops calls ++ [OpResidue])) in
+  snd (run_ops w0 [OpProject 0 kw_a; OpProject 1 kw_a; OpProject 0 kw_b; OpProject 1 kw_b])
+    = [OutKeys [0]; OutKeys [0]; OutKeys [0]; OutKeys [0]] /\
+  ~ file_cfg_equal kw_a kw_b /\
+  internal_in (r_cfg kw_a) (bs "goos") <> internal_in (r_cfg kw_b) (bs "goos").
+Proof.
+  cbv zeta. split; [vm_compute; reflexivity|]. split; [|vm_compute; discriminate].
+  intros H. specialize (H (bs "goos")). vm_compute in H. discriminate H.
+Qed.
+
+(** a name with the sub-name key /a twice: "/a" reads the first, the residue
+    deletes both, so the two names get equal Keys everywhere although they differ
+    in a part — which no Key reads *)
+Definition dw_a : result := mkR (bs "Fib/a=1/a=2") [] [].
+Definition dw_b : result := mkR (bs "Fib/a=1/a=3") [] [].
+Example C08_duplicate_subkey_unseen :
+  let calls := [(false, [ex_a])] in
+  let w0 := fst (run_ops new_world (parse_ops calls ++ [OpResidue])) in
+  snd (run_ops w0 [OpProject 0 dw_a; OpProject 1 dw_a; OpProject 0 dw_b; OpProject 1 dw_b])
+    = [OutKeys [0]; OutKeys [0]; OutKeys [0]; OutKeys [0]] /\
+  r_name dw_a <> r_name dw_b /\
+  ~ DistinctSubKeys (pp_full (parser_after calls)) (r_name dw_a) /\
+  DistinctSubKeys (pp_full (parser_after lx_calls)) (r_name lx_a).
+Proof.
+  cbv zeta. split; [vm_compute; reflexivity|]. split; [discriminate|]. split.
+  - intros H. specialize (H (bs "/a") (or_introl eq_refl)). vm_compute in H. lia.
+  - intros k [<-|[]]. vm_compute. lia.
+Qed.
+
+(** a Parse call that returned an error has already recorded "goos" in the
+    parser: the residue leaves it out and no projection carries it, so results
+    differing in goos get equal Keys. [call_ok] is needed. *)
+Definition fw_a : result := mkR (bs "F") [mkCfg (bs "goos") (bs "linux") true] [].
+Definition fw_b : result := mkR (bs "F") [mkCfg (bs "goos") (bs "darwin") true] [].
+Example C08_failed_parse_loses :
+  let calls := [(false, [ex_goos; mkPS key_unit (bs "first") []])] in
+  let '(w0, xs0) := run_ops new_world (parse_ops calls ++ [OpResidue]) in
+  xs0 = [OutParse false; OutNone] /\ ~ Forall call_ok calls /\
+  snd (run_ops w0 [OpProject 0 fw_a; OpProject 0 fw_b]) = [OutKeys [0]; OutKeys [0]] /\
+  ~ file_cfg_equal fw_a fw_b.
+Proof.
+  cbv zeta. vm_compute run_ops. split; [reflexivity|]. split.
+  - intros H. inversion H as [|? ? Hc _]; subst. vm_compute in Hc. discriminate Hc.
+  - split; [reflexivity|]. intros H. specialize (H (bs "goos")). vm_compute in H. discriminate H.
+Qed.
+
+(** the theorem is about streams in which all Parse calls come first (the code's
+    own assumption: "this closure doesn't get called until we've parsed all
+    projections"). A Project before a later Parse leaves a sub-field for a key
+    that the later Parse excludes; that stale sub-field then compares FILE values
+    where clause (i) compares looked-up values: the Keys of ".config" differ
+    although [same_info] holds. *)
+Definition pw_r0 : result := mkR (bs "F") [mkCfg (bs "goos") (bs "x") true] [].
+Example C08_parse_after_project_witness :
+  let ops := [OpParse false [ex_cfg]; OpProject 0 pw_r0; OpParse false [ex_goos]; OpResidue;
+              OpProject 0 kw_a; OpProject 0 kw_b; OpProject 1 kw_a; OpProject 1 kw_b;
+              OpProject 2 kw_a; OpProject 2 kw_b] in
+  let '(w, xs) := run_ops new_world ops in
+  skipn 4 xs = [OutKeys [1]; OutKeys [2]; OutKeys [0]; OutKeys [0]; OutKeys [0]; OutKeys [0]] /\
+  pp_cfg (w_pp w) = [bs "goos"] /\ pp_full (w_pp w) = [] /\
+  same_info [bs "goos"] [] kw_a kw_b.
+Proof.
+  cbv zeta. vm_compute run_ops. split; [reflexivity|]. split; [reflexivity|]. split; [reflexivity|].
+  split; [|split; [|split]].
+  - intros k [<-|[]]. reflexivity.
+  - intros k Hk. unfold cfg_file_val, kw_a, kw_b. cbn [r_cfg cfg_lookup c_key].
+    destruct (beq_spec (bs "goos") k) as [<-|_]; [|reflexivity]. exfalso. apply Hk. now left.
+  - intros k [].
+  - reflexivity.
 Qed.
